@@ -137,9 +137,17 @@ func Implies(a, b *Term) *Term {
 	return T(sortBool, "(=> "+a.S+" "+b.S+")")
 }
 
+func isStrLit(s string) bool { return s == "str_empty" || strings.HasPrefix(s, "strlit_") }
+
 func Eq(a, b *Term) *Term {
 	if a.S == b.S {
 		return tTrue
+	}
+	if (isStrLit(a.S) && isStrLit(b.S)) || (isNumeral(a.S) && isNumeral(b.S)) {
+		return tFalse // distinct literals
+	}
+	if (a.S == "true" && b.S == "false") || (a.S == "false" && b.S == "true") {
+		return tFalse
 	}
 	return T(sortBool, "(= "+a.S+" "+b.S+")")
 }
@@ -162,7 +170,38 @@ func Bin(s *Sort, op string, a, b *Term) *Term {
 }
 
 func Select(arr, idx *Term, elem *Sort) *Term {
-	return T(elem, "(select "+arr.S+" "+idx.S+")")
+	// (select (store a i v) i) = v, syntactically; skip stores at syntactically different numerals
+	cur := arr.S
+	for {
+		a, ok := ctorArgs(cur, "store")
+		if !ok || len(a) != 3 {
+			break
+		}
+		if a[1] == idx.S {
+			return T(elem, a[2])
+		}
+		if isNumeral(a[1]) && isNumeral(idx.S) {
+			cur = a[0]
+			continue
+		}
+		break
+	}
+	return T(elem, "(select "+cur+" "+idx.S+")")
+}
+
+func isNumeral(s string) bool {
+	if s == "" {
+		return false
+	}
+	if strings.HasPrefix(s, "(- ") && strings.HasSuffix(s, ")") {
+		s = s[3 : len(s)-1]
+	}
+	for i := 0; i < len(s); i++ {
+		if s[i] < '0' || s[i] > '9' {
+			return false
+		}
+	}
+	return true
 }
 
 func Store(arr, idx, v *Term) *Term {
